@@ -55,8 +55,7 @@ Free == {h \in Handles : ~x.pools[h].ex}
 \* a new object goes into the lowest free handle (handles are interchangeable)
 Lowest(h) == h \in Free /\ \A h2 \in Free : h <= h2
 
-CallNew == \E h \in Handles, kind \in KindsUsed, outs \in OutsSet, name \in Names \cup {""}, prefix \in Prefixes :
-             Lowest(h) /\ LET c == [Call("new", h) EXCEPT !.kind = kind, !.outs = outs, !.name = name, !.prefix = prefix] IN Do(c, New(x, c))
+CallNew == \E h \in Handles, kind \in KindsUsed, outs \in OutsSet, name \in Names \cup {""}, prefix \in Prefixes : Lowest(h) /\ LET c == [Call("new", h) EXCEPT !.kind = kind, !.outs = outs, !.name = name, !.prefix = prefix] IN Do(c, New(x, c))
 CallSetContext == \E h \in Live(x), bs \in BSs, seed \in Seeds : LET c == [Call("set_context", h) EXCEPT !.bs = bs, !.seed = seed] IN Do(c, SetContext(x, c))
 CallAddBatch == \E h \in Live(x), i \in 0..MaxI, ns \in NsSet, v \in Vals : LET c == [Call("add_batch", h) EXCEPT !.i = i, !.ns = ns, !.v = v] IN Do(c, AddBatch(x, c))
 CallRemoveBatch == \E h \in Live(x), i \in 0..MaxI : LET c == [Call("remove_batch", h) EXCEPT !.i = i] IN Do(c, RemoveBatch(x, c))
@@ -68,13 +67,10 @@ CallFlush == \E h \in Live(x) : LET c == Call("flush", h) IN Do(c, Flush(x, c))
 CallSave == \E h \in Live(x) : LET c == Call("save", h) IN Do(c, Save(x, c))
 CallClose == \E h \in Live(x) : LET c == Call("close", h) IN Do(c, Close(x, c))
 CallDelete == \E h \in Live(x) : LET c == Call("delete", h) IN Do(c, Delete(x, c))
-CallOpen == \E h \in Handles, name \in AllNames, prefix \in Prefixes :
-              Lowest(h) /\ LET c == [Call("open", h) EXCEPT !.name = name, !.prefix = prefix] IN Do(c, Open(x, c))
+CallOpen == \E h \in Handles, name \in AllNames, prefix \in Prefixes : Lowest(h) /\ LET c == [Call("open", h) EXCEPT !.name = name, !.prefix = prefix] IN Do(c, Open(x, c))
 DropObject == \E h \in Live(x) : LET c == Call("drop", h) IN Do(c, Drop(x, c))
-MoveFolder == EnvMoves /\ \E d1 \in Dirs, d2 \in Dirs : d1 # d2 /\ x.disk[d1].ex /\ ~x.disk[d2].ex /\ ~OpenIn(x, d1)
-                                                       /\ LET c == [Call("move", 0) EXCEPT !.d1 = d1, !.d2 = d2] IN Do(c, MoveDir(x, c))
-CopyFolder == EnvMoves /\ \E d1 \in Dirs, d2 \in Dirs : d1 # d2 /\ x.disk[d1].ex /\ ~x.disk[d2].ex /\ ~OpenIn(x, d1)
-                                                       /\ LET c == [Call("copy", 0) EXCEPT !.d1 = d1, !.d2 = d2] IN Do(c, CopyDir(x, c))
+MoveFolder == EnvMoves /\ \E d1 \in Dirs, d2 \in Dirs : d1 # d2 /\ x.disk[d1].ex /\ ~x.disk[d2].ex /\ ~OpenIn(x, d1) /\ LET c == [Call("move", 0) EXCEPT !.d1 = d1, !.d2 = d2] IN Do(c, MoveDir(x, c))
+CopyFolder == EnvMoves /\ \E d1 \in Dirs, d2 \in Dirs : d1 # d2 /\ x.disk[d1].ex /\ ~x.disk[d2].ex /\ ~OpenIn(x, d1) /\ LET c == [Call("copy", 0) EXCEPT !.d1 = d1, !.d2 = d2] IN Do(c, CopyDir(x, c))
 \* the only thing that happens while the working directory is a pool folder
 ChdirBack == /\ x.cwd # Home /\ ~x.torn /\ nops < MaxOps
              /\ x' = [x EXCEPT !.cwd = Home] /\ nops' = nops + 1 /\ UNCHANGED <<g, viol>>
